@@ -6,6 +6,8 @@
   OBLIGATION c34_contained
   OBLIGATION c34_title
   OBLIGATION c34_page
+  OBLIGATION c34_members
+  OBLIGATION c34_violated_by_missingComma
   OBLIGATION c34_violated_by_entitiesInScript
   OBLIGATION c34_violated_by_backslashRaw
   OBLIGATION c34_violated_by_controlsRaw
@@ -81,7 +83,21 @@ theorem c34_page (c : Config) :
   · intro s hs; exact ⟨_, by simp [p, render, hs], g s⟩
   · intro hs; simp [p, render, hs]
 
+/-- The object literal handed to `createGraphiQLFetcher` is syntactically an object literal for
+    every configuration: each property but the last is followed by a comma. -/
+theorem c34_members (c : Config) : wellSeparated (members Defects.none c) = true := by
+  unfold members Defects.none
+  cases c.subscription.isSome <;> cases c.headers.isEmpty <;> cases c.wsParams.isEmpty <;> simp [wellSeparated]
+
 -- ------------------------------------------------------------------ the pinned tree's defects
+
+/-- headers and connection parameters together: `headers: {…}` is directly followed by
+    `wsConnectionParams: {…}` — a SyntaxError, the page's script does not run at all -/
+theorem c34_violated_by_missingComma :
+    ∃ c : Config, wellSeparated (members { missingComma := true } c) = false :=
+  ⟨{ endpoint := ['/'], subscription := none, title := none,
+     headers := [(['a'], ['b'])], wsParams := [(['c'], ['d'])] }, by decide⟩
+
 
 /-- `&` (likewise `'`, `"`, `<`, `>`) is written as an HTML character reference inside the
     script; JavaScript does not decode it: the page talks to `/q?a=1&#38;b=2`. -/
